@@ -142,7 +142,7 @@ def _run(chk):
     from trackpy.linking.utils import SubnetOversizeException
     common.quiet_trackpy()
     chk.coq()
-    n = 120 if chk.tier == 'quick' else 1200
+    n = 120 if chk.tier == 'quick' else 4000
     terms, metas = [], []
     for k in range(n):
         c = c02.gen_case(chk.rng, chk.tier)
